@@ -70,6 +70,11 @@ CastCases(from, to) ==
       P(CaseRec("cast", "Cast", <<AI("to", OnnxCode(to))>>, <<LowerT(X)>>, LowerA(s), <<Tag(s), "scalar">>))
    /\ LET X == T(from, <<2, 1, 2>>, <<vals[1], vals[2], vals[3], vals[4]>>) s == SemCast(X, to) IN
       P(CaseRec("cast", "Cast", <<AI("to", OnnxCode(to))>>, <<LowerT(X)>>, LowerA(s), <<Tag(s), "rank3">>))
+\* tiling law (Outcome.tla): the whole catalogue of a (source, target) pair as a vector, repeated beyond a million elements by the harness
+TileCast(from, to) ==
+   LET X == Vec(from, CastVals(from, to)) s == SemCast(X, to) IN
+   TileLaw(LAMBDA ins : SemCast(ins[1], to), <<X>>, {1}) =>
+      P(CaseRec("cast", "Cast", <<AI("to", OnnxCode(to))>>, <<LowerT(X)>>, LowerA(s), <<Tag(s), "tile_law", from \o "->" \o to>>) @@ [tile |-> TileField({1})])
 \* 64-bit integers beyond the 53-bit mantissa of a float64, as little-endian byte images: 2^53+1, 2^62+3, 2^63-1, 2^53, 2^54+2^30+1.
 \* Between the two 64-bit integer types a value both can hold keeps its bit pattern exactly.
 WideInts == <<<<1, 0, 0, 0, 0, 0, 32, 0>>, <<3, 0, 0, 0, 0, 0, 0, 64>>, <<255, 255, 255, 255, 255, 255, 255, 127>>, <<0, 0, 0, 0, 0, 0, 32, 0>>,
@@ -101,6 +106,7 @@ Emit ==
         [] st.fam = "cosinvalid" -> CosInvalid
         [] st.fam = "cast" -> CastCases(st.from, st.to) /\ (st.from = "i64" /\ st.to = "i64" => WideCastCases("i64", "i64"))
                                /\ (<<st.from, st.to>> \in {<<"f32", "i64">>, <<"i64", "f32">>, <<"f32", "f64">>, <<"i32", "f32">>} => LongCast(st.from, st.to))
+                               /\ (st.from \in {"f32", "i64", "u8", "f64"} /\ st.to \in {"f32", "i64", "i32", "u8"} => TileCast(st.from, st.to))
         [] st.fam = "castinvalid" -> CastInvalid(st.from)
    /\ st' = [st EXCEPT !.done = TRUE]
 Next == Emit
